@@ -244,7 +244,15 @@ static void check_set_outcome(struct vep *e, struct arec *a, bool exists, bool t
         else if (exists && se == ENOENT) av("set-errno", name, "xcm_attr_set on the existing \"%s\" (type %d, len %zu) failed with ENOENT; %s", name, t, len, what);
         /* a switch to blocking mode that discovered a dead connection (user time-out of a back-pressured socket on a slow machine, ...) did not
          * cause what it discovered: the attribute set of a failed connection differs for that reason, not because of the rejected set */
-        if (!strcmp(name, "xcm.blocking") && veng_is_conn_errno(se)) { vobs("blocking_switch_found_dead_connection", 1); return; }
+        if (!strcmp(name, "xcm.blocking") && veng_is_conn_errno(se)) {
+            vobs("blocking_switch_found_dead_connection", 1);
+            /* ... but the refused switch itself must not have happened: the mode reads as before, and the calls of a non-blocking socket still work */
+            bool now = false; int g; { SC(e, "xcm_attr_get"); g = xcm_attr_get_bool(e->s, "xcm.blocking", &now); vs_leave(); }
+            bool was = false; struct arec *ab = snap_find(before, "xcm.blocking"); if (ab && ab->len == 1) was = ab->val[0] != 0;
+            if (g > 0 && ab && now != was) av("set-rejected-with-side-effect", name, "xcm_attr_set(\"xcm.blocking\", %d) failed with errno %d (%s), yet xcm.blocking now reads %d (it was %d); %s", len ? ((const unsigned char *)val)[0] : -1, se, strerror(se), now, was, what);
+            if (g > 0 && ab && !was) { int fdr; { SC(e, "xcm_fd"); fdr = xcm_fd(e->s); vs_leave(); } if (fdr < 0) av("set-rejected-with-side-effect", name, "after the refused switch to blocking mode xcm_fd() fails with errno %d on a socket that is still non-blocking; %s", errno, what); }
+            return;
+        }
         struct snap after; snap_take(e, &after);
         const char *d = snap_diff(before, &after, NULL);
         if (d) { vobs("set_side_effect_checks", 0); av("set-rejected-with-side-effect", name, "xcm_attr_set(\"%s\", type %d, len %zu) was rejected with errno %d, yet %s; %s", name, t, len, se, d, what); }
